@@ -174,12 +174,34 @@ where
         #[cfg(feature = "search")]
         let search = self.0.search_index().map(|index| index.search());
 
+        {
+            let folder = self
+                .0
+                .folders_mut()
+                .get_mut(folder_id)
+                .ok_or_else(|| StorageError::FolderNotFound(*folder_id))?;
+            folder.force_merge(&diff).await?;
+        }
+
+        // The folder password may have been changed on another
+        // device so unlock the replaced vault with the folder
+        // password in the identity folder
+        let key = self
+            .0
+            .authenticated_user()
+            .ok_or(AuthenticationError::NotAuthenticated)?
+            .identity()?
+            .find_folder_password(folder_id)
+            .await?;
+        if let Some(key) = key {
+            self.0.unlock_folder(folder_id, &key).await?;
+        }
+
         let folder = self
             .0
             .folders_mut()
             .get_mut(folder_id)
             .ok_or_else(|| StorageError::FolderNotFound(*folder_id))?;
-        folder.force_merge(&diff).await?;
 
         // The vault was replaced so the search index documents
         // for the folder must be rebuilt
